@@ -7,12 +7,12 @@ from typing import Dict, List, Optional
 
 from engine import AnalysisError
 from engine.srcmodel import walk_shallow, norm, parent, ancestors
-from engine.util import call_name, contains, fstring_template
+from engine.util import call_name, contains, fstring_template, alias_is_stable
 from engine.cfg import stmt_of
 from engine.dataflow import assigned_value, target_names
 from . import helpers as H
 from .c02 import r1_interp
-from .c06 import same_value, resolve_local, binding_loop, comp_generator_of, position_in_target, ordered
+from .c06 import same_value, resolve_local, binding_loop, comp_generator_of, position_in_target, ordered, hosts_of
 
 PROPERTY = "C08"
 REL = "pyrates/frontend/template/circuit.py"
@@ -26,11 +26,11 @@ EXPLANATION = (
     "(op, var) of the addressed path, its source is the output variable of the freshly created input node, and a `source_idx` is the "
     "enumerate counter of that same node list, used only under a guard that compares the input's column count with the length of "
     "that list.  R3 time grid: in create_input_node the adaptive branch builds linspace(0, T, inp.shape[0]) (T, inp = unmodified "
-    "parameters, end point included), the emitted equation is `<lhs> = interp|interp_rows(t, <grid var>, <var>_input)` with the grid "
-    "variable bound to that linspace and <var>_input bound to the array (interp_rows exactly on the 2-D branch), the fixed-step branch "
-    "emits `<lhs> = index(<var>_input, t)`, and the returned names are those of the node/operator/output variable built; _add_input "
+    "parameters, end point included), the emitted equation is `<lhs> = interp|interp_rows(t, <grid var>, <array var>)` with the grid "
+    "variable declared with that linspace and the array variable declared with the array as value (interp_rows exactly on the 2-D "
+    "branch; names held in locals are inlined), the fixed-step branch emits `<lhs> = index(<array var>, t)`, and the returned names are those of the node/operator/output variable built; _add_input "
     "forwards its adaptive flag, its time span and the canonicalised array to the matching parameters; each caller (run, "
-    "get_run_func, get_jacobian_func) passes the simulation time it integrates over (run) resp. inp.shape[0]*step_size, passes the "
+    "get_run_func, get_jacobian_func - or the helper method it delegates the compilation to, followed through the call graph) passes the simulation time it integrates over (run) resp. inp.shape[0]*step_size, passes the "
     "same adaptive flag to _add_input and to apply(), takes target and array from one inputs.items() pair and compiles the template "
     "that _add_input returned.  R4 (= C15-R3 instance) CircuitTemplate.update_template forwards every constructor parameter to the "
     "new instance and _add_input returns update_template(edges=<the records>) of the template that holds the input node.  "
@@ -94,6 +94,82 @@ def _holes(js: ast.JoinedStr):
     return [v.value for v in js.values if isinstance(v, ast.FormattedValue)]
 
 
+def _flatten_fstring(ctx, f, e: ast.AST, depth: int = 4) -> ast.AST:
+    """The string expression `e` (f-string, str constant, or a local bound once to one) with every plain hole `{name}` replaced by
+    the parts of the string that `name` is bound to, when that binding is a single stable `name = <f-string / str constant>`.
+    The holes of the result are the *original* hole nodes, so that def-use queries on them still work."""
+    if isinstance(e, ast.Name):
+        v = _stable_string_def(ctx, f, e)
+        if v is None:
+            return e
+        e = v
+    if isinstance(e, ast.Constant) and isinstance(e.value, str):
+        return ast.JoinedStr(values=[e])
+    if not isinstance(e, ast.JoinedStr):
+        return e
+    values = []
+    for part in e.values:
+        if isinstance(part, ast.FormattedValue) and part.conversion == -1 and part.format_spec is None and isinstance(part.value, ast.Name) \
+                and depth > 0:
+            v = _stable_string_def(ctx, f, part.value)
+            if v is not None:
+                inner = _flatten_fstring(ctx, f, v, depth - 1)
+                if isinstance(inner, ast.JoinedStr):
+                    values.extend(inner.values)
+                    continue
+        values.append(part)
+    new = ast.JoinedStr(values=values)
+    ast.copy_location(new, e)
+    new._parent = getattr(e, "_parent", None)
+    return new
+
+
+def _stable_string_def(ctx, f, name: ast.Name):
+    if comp_generator_of(name) is not None:
+        return None
+    defs = ctx.rd(f).defs_reaching(name)
+    if len(defs) != 1 or isinstance(defs[0], ast.arguments):
+        return None
+    v = assigned_value(defs[0], name.id)
+    if isinstance(v, ast.JoinedStr) or (isinstance(v, ast.Constant) and isinstance(v.value, str)):
+        if alias_is_stable(ctx, f, defs[0], name, v):
+            return v
+    return None
+
+
+def _cmp_parts(test: ast.AST):
+    """(`left-text`, op class, constant) of a comparison between an expression and a numeric constant, operands normalised so that
+    the constant is on the right; None otherwise."""
+    if not (isinstance(test, ast.Compare) and len(test.ops) == 1):
+        return None
+    l, r, op = test.left, test.comparators[0], type(test.ops[0])
+    flip = {ast.Lt: ast.Gt, ast.Gt: ast.Lt, ast.LtE: ast.GtE, ast.GtE: ast.LtE, ast.Eq: ast.Eq, ast.NotEq: ast.NotEq}
+    if isinstance(l, ast.Constant) and not isinstance(r, ast.Constant):
+        if op not in flip:
+            return None
+        l, r, op = r, l, flip[op]
+    if not (isinstance(r, ast.Constant) and isinstance(r.value, (int, float)) and not isinstance(r.value, bool)):
+        return None
+    return ast.unparse(l), op, r.value
+
+
+def _ndim_test(test: ast.AST, arr: str) -> Optional[bool]:
+    """True if the test holds exactly for arrays with more than one dimension, False if exactly for at most one dimension,
+    None when it is neither (tests of `<arr>.ndim` / `len(<arr>.shape)` against a constant; `not` is looked through)."""
+    if isinstance(test, ast.UnaryOp) and isinstance(test.op, ast.Not):
+        r = _ndim_test(test.operand, arr)
+        return None if r is None else not r
+    p = _cmp_parts(test)
+    if p is None or p[0] not in (f"{arr}.ndim", f"len({arr}.shape)", f"np.ndim({arr})", f"ndim({arr})"):
+        return None
+    _, op, c = p
+    if (op is ast.Gt and c == 1) or (op is ast.GtE and c == 2) or (op is ast.NotEq and c == 1) or (op is ast.Eq and c == 2):
+        return True
+    if (op is ast.LtE and c == 1) or (op is ast.Lt and c == 2) or (op is ast.Eq and c == 1) or (op is ast.NotEq and c == 2):
+        return False
+    return None
+
+
 def _is_col_count(ctx, f, e, arr: str) -> bool:
     """`inp.shape[-1] if inp.ndim > 1 else 1` (or inp.shape[-1] / inp.shape[1])."""
     e = resolve_local(ctx, f, e)
@@ -101,10 +177,46 @@ def _is_col_count(ctx, f, e, arr: str) -> bool:
     def last_dim(x):
         return isinstance(x, ast.Subscript) and isinstance(x.value, ast.Attribute) and x.value.attr == "shape" \
             and isinstance(x.value.value, ast.Name) and x.value.value.id == arr and ast.unparse(x.slice) in ("-1", "1")
+    def one(x):
+        return isinstance(x, ast.Constant) and x.value == 1 and not isinstance(x.value, bool)
     if last_dim(e):
         return True
-    return isinstance(e, ast.IfExp) and last_dim(e.body) and isinstance(e.orelse, ast.Constant) and e.orelse.value == 1 \
-        and ast.unparse(e.test) == f"{arr}.ndim > 1"
+    if not isinstance(e, ast.IfExp):
+        return False
+    multi = _ndim_test(e.test, arr)
+    if multi is True:
+        return last_dim(e.body) and one(e.orelse)
+    if multi is False:
+        return one(e.body) and last_dim(e.orelse)
+    return False
+
+
+_FUNC_NODES = (ast.FunctionDef, ast.AsyncFunctionDef, ast.Lambda)
+
+
+def _implied_atoms(ctx, f, test: ast.AST, positive: bool, depth: int = 4):
+    """Equality comparisons that necessarily hold when `test` evaluates to `positive`: conjuncts of an `and` (disjuncts of an `or`
+    when the test is known to be false), through `not`, through locals bound once to a test; `a != b` known false counts as a == b."""
+    if isinstance(test, ast.UnaryOp) and isinstance(test.op, ast.Not):
+        return _implied_atoms(ctx, f, test.operand, not positive, depth)
+    if isinstance(test, ast.BoolOp):
+        if isinstance(test.op, ast.And) == positive:
+            out = []
+            for v in test.values:
+                out += _implied_atoms(ctx, f, v, positive, depth)
+            return out
+        return []
+    if isinstance(test, ast.Name) and depth > 0 and comp_generator_of(test) is None:
+        defs = ctx.rd(f).defs_reaching(test)
+        if len(defs) == 1 and not isinstance(defs[0], ast.arguments):
+            v = assigned_value(defs[0], test.id)
+            if isinstance(v, (ast.BoolOp, ast.Compare, ast.UnaryOp, ast.Name)) and alias_is_stable(ctx, f, defs[0], test, v):
+                return _implied_atoms(ctx, f, v, positive, depth - 1)
+        return []
+    if isinstance(test, ast.Compare) and len(test.ops) == 1:
+        if (isinstance(test.ops[0], ast.Eq) and positive) or (isinstance(test.ops[0], ast.NotEq) and not positive):
+            return [test]
+    return []
 
 
 # --------------------------------------------------------------------------------------------
@@ -129,20 +241,53 @@ def r2_column_to_node(ctx, rid):
         defs = ctx.rd(f).defs_reaching(e)
         return len(defs) == 1 and defs[0] is tn_assign
 
-    records = ordered([t for t in walk_shallow(f.node) if isinstance(t, ast.Tuple) and len(t.elts) == 4 and isinstance(t.elts[3], ast.Dict)
-                       and any(isinstance(k, ast.Constant) and k.value == "weight" for k in t.elts[3].keys)])
+    def weight_dict(e):
+        return isinstance(e, ast.Dict) and any(isinstance(k, ast.Constant) and k.value == "weight" for k in e.keys)
+
+    # an edge record is a 4-tuple whose last element is the attribute dict {'weight': ...}: written in place, or a local that is bound
+    # to such a dict and possibly completed by `<local>['source_idx'] = ...` before the tuple is built
+    records = []          # (tuple node, attrs: key -> value expr, sites: key -> node whose guards decide whether the key is present)
+    for t in ordered([t for t in walk_shallow(f.node) if isinstance(t, ast.Tuple) and len(t.elts) == 4]):
+        d = t.elts[3]
+        if weight_dict(d):
+            attrs = {k.value: v for k, v in zip(d.keys, d.values) if isinstance(k, ast.Constant)}
+            ctx.require(all(k is not None for k in d.keys), f"{rid}: edge attributes `{norm(d)}` use ** unpacking (unrecognised form)")
+            records.append((t, attrs, {k: t for k in attrs}))
+        elif isinstance(d, ast.Name) and comp_generator_of(d) is None:
+            defs = ctx.rd(f).defs_reaching(d)
+            if len(defs) != 1:
+                continue
+            dv = assigned_value(defs[0], d.id)
+            if not weight_dict(dv):
+                continue
+            ctx.require(all(k is not None for k in dv.keys), f"{rid}: edge attributes `{norm(dv)}` use ** unpacking (unrecognised form)")
+            attrs = {k.value: v for k, v in zip(dv.keys, dv.values) if isinstance(k, ast.Constant)}
+            sites = {k: t for k in attrs}
+            for n in walk_shallow(f.node):
+                if isinstance(n, ast.Name) and n.id == d.id and n is not d and isinstance(n.ctx, ast.Load) \
+                        and any(x is defs[0] for x in ctx.rd(f).defs_reaching(n)):
+                    par = parent(n)
+                    st = stmt_of(ctx.cfg(f), n)
+                    if isinstance(par, ast.Subscript) and par.value is n and isinstance(par.ctx, ast.Store) and isinstance(st, ast.Assign) \
+                            and len(st.targets) == 1 and st.targets[0] is par and isinstance(par.slice, ast.Constant) \
+                            and isinstance(par.slice.value, str) and par.slice.value not in attrs:
+                        attrs[par.slice.value] = st.value
+                        sites[par.slice.value] = st
+                    else:
+                        raise AnalysisError(f"{rid}: the edge attribute dict `{d.id}` is also used in `{norm(st)}` (unrecognised form)")
+            records.append((t, attrs, sites))
     ctx.require(records, f"{rid}: no edge record (source, target, template, {{'weight': ...}}) found in _add_input")
     n_idx = 0
-    for no, rec in enumerate(records, 1):
-        attrs = {k.value: v for k, v in zip(rec.elts[3].keys, rec.elts[3].values) if isinstance(k, ast.Constant)}
+    for no, (rec, attrs, sites) in enumerate(records, 1):
         tag = f"edge record {no} ({'per-column' if 'source_idx' in attrs else 'broadcast'})"
         # ---- target path
-        tgt = rec.elts[1]
+        tgt = _flatten_fstring(ctx, f, rec.elts[1])
         if not (isinstance(tgt, ast.JoinedStr) and re.fullmatch(r"⟨[^⟩]*⟩/⟨[^⟩]*⟩/⟨[^⟩]*⟩", fstring_template(tgt) or "")):
             raise AnalysisError(f"{rid}: edge target `{norm(tgt)}` is not an f-string `<node>/<op>/<var>` (unrecognised form)")
         th, oh, vh = _holes(tgt)
         b = binding_loop(ctx, f, th) if isinstance(th, ast.Name) else None
         lst = counter_gen = None
+        counter_pos = 0
         if b is not None:
             target, it, node = b
             if isinstance(it, ast.Call) and call_name(it) == "enumerate" and isinstance(it.func, ast.Name) and len(it.args) == 1 \
@@ -150,6 +295,16 @@ def r2_column_to_node(ctx, rid):
                 lst, counter_gen = it.args[0], node
             elif isinstance(target, ast.Name):
                 lst = it
+        else:
+            # index loop: `<list>[i]` (directly or through a local) with i bound by `for i in range(len(<list>))`
+            th_r = resolve_local(ctx, f, th)
+            if isinstance(th_r, ast.Subscript) and isinstance(th_r.slice, ast.Name) and isinstance(th_r.value, ast.Name):
+                ib = binding_loop(ctx, f, th_r.slice)
+                if ib is not None and isinstance(ib[0], ast.Name) and isinstance(ib[1], ast.Call) and isinstance(ib[1].func, ast.Name) \
+                        and ib[1].func.id == "range" and len(ib[1].args) == 1 and not ib[1].keywords \
+                        and isinstance(ib[1].args[0], ast.Call) and call_name(ib[1].args[0]) == "len" and len(ib[1].args[0].args) == 1 \
+                        and same_value(ctx, f, ib[1].args[0].args[0], th_r.value):
+                    b, lst, counter_gen, counter_pos = ib, th_r.value, ib[2], None
         why = None
         if b is None:
             why = f"the node part `{norm(th)}` is not a loop variable over the resolved node list"
@@ -165,7 +320,7 @@ def r2_column_to_node(ctx, rid):
             ctx.violation(rid, f, rec, f"the input edge does not address the variable the input path names: {why}", {"target": norm(tgt)},
                           label=f"{tag}: target path")
         # ---- source path = output variable of the new input node
-        src = rec.elts[0]
+        src = _flatten_fstring(ctx, f, rec.elts[0])
         if not (isinstance(src, ast.JoinedStr) and re.fullmatch(r"⟨[^⟩]*⟩/⟨[^⟩]*⟩/⟨[^⟩]*⟩", fstring_template(src) or "")):
             raise AnalysisError(f"{rid}: edge source `{norm(src)}` is not an f-string `<node>/<op>/<var>` (unrecognised form)")
         nh, sh_op, sh_var = _holes(src)
@@ -194,21 +349,40 @@ def r2_column_to_node(ctx, rid):
         n_idx += 1
         sidx = attrs["source_idx"]
         cb = binding_loop(ctx, f, sidx) if isinstance(sidx, ast.Name) else None
-        is_counter = cb is not None and counter_gen is not None and cb[2] is counter_gen and position_in_target(cb[0], sidx.id) == 0
+        is_counter = cb is not None and counter_gen is not None and cb[2] is counter_gen \
+            and (position_in_target(cb[0], sidx.id) == 0 if counter_pos == 0 else isinstance(cb[0], ast.Name))
         if is_counter and why is None:
             ctx.ok(rid, f, rec, "source_idx is the enumerate counter of the node list the edge target is taken from (column i -> node i)",
                    {"source_idx": norm(sidx), "iteration": f"for {ast.unparse(cb[0])} in {ast.unparse(cb[1])}"}, label=f"{tag}: source_idx")
         else:
             ctx.violation(rid, f, rec, f"source_idx is `{norm(sidx)}`, not the position of the target node in the resolved node list: node i "
                                        f"does not receive column i of the input array", {"source_idx": norm(sidx)}, label=f"{tag}: source_idx")
-        # guard
-        st = stmt_of(ctx.cfg(f), rec)
-        guards = [a for a in ancestors(st) if isinstance(a, ast.If) and any(contains(x, st) for x in a.body)]
+        # guard: the conditions under which the record carries a source_idx (tests of the enclosing if-statements, with their
+        # polarity, looked through `not`, and/or and locals that hold a test)
+        site = sites["source_idx"]
         found = None
         other_len = None
-        for g in guards:
-            for c in ast.walk(g.test):
-                if isinstance(c, ast.Compare) and len(c.ops) == 1 and isinstance(c.ops[0], ast.Eq):
+        for anc in ancestors(site):
+            if isinstance(anc, ast.If):
+                if any(contains(x, site) for x in anc.body):
+                    pol = True
+                elif any(contains(x, site) for x in anc.orelse):
+                    pol = False
+                else:
+                    continue
+            elif isinstance(anc, ast.IfExp):
+                if contains(anc.body, site):
+                    pol = True
+                elif contains(anc.orelse, site):
+                    pol = False
+                else:
+                    continue
+            elif isinstance(anc, _FUNC_NODES):
+                break
+            else:
+                continue
+            for c in _implied_atoms(ctx, f, anc.test, pol):
+                if isinstance(c, ast.Compare) and len(c.ops) == 1:
                     for a_, b_ in ((c.left, c.comparators[0]), (c.comparators[0], c.left)):
                         if isinstance(a_, ast.Call) and call_name(a_) == "len" and len(a_.args) == 1:
                             if is_target_list(a_.args[0]) and _is_col_count(ctx, f, b_, inp_param):
@@ -303,9 +477,10 @@ def r3_time_grid(ctx, rid):
     def equations(block):
         out = []
         for st in ordered(walk_shallow(g.node)):
-            if isinstance(st, ast.Assign) and in_block(block, st) and isinstance(st.value, ast.List) and len(st.value.elts) == 1 \
-                    and isinstance(st.value.elts[0], ast.JoinedStr):
-                out.append((st, st.value.elts[0]))
+            if isinstance(st, ast.Assign) and in_block(block, st) and isinstance(st.value, ast.List) and len(st.value.elts) == 1:
+                js = _flatten_fstring(ctx, g, st.value.elts[0])
+                if isinstance(js, ast.JoinedStr):
+                    out.append((st, js))
         return out
 
     def table_lookup(table: ast.Dict, pred):
@@ -314,9 +489,22 @@ def r3_time_grid(ctx, rid):
                 return v
         return None
 
-    def check_array_binding(table, block_name, st):
-        """`<var>_input` is bound to the unmodified array parameter."""
-        ent = table_lookup(table, lambda k: isinstance(k, ast.JoinedStr) and fstring_template(k) == f"⟨{p_var}⟩_input")
+    def key_text(k, eq_js):
+        """Template text of a table key that is a string / f-string (directly or through a local); its holes must denote the same
+        values as the equally spelt holes of the equation it is compared with."""
+        kf = _flatten_fstring(ctx, g, k) if isinstance(k, (ast.JoinedStr, ast.Name, ast.Constant)) else None
+        if not isinstance(kf, ast.JoinedStr):
+            return None
+        eq_holes = {ast.unparse(h): h for h in _holes(eq_js)}
+        for h in _holes(kf):
+            other = eq_holes.get(ast.unparse(h))
+            if other is not None and not same_value(ctx, g, h, other):
+                return None
+        return fstring_template(kf)
+
+    def check_array_binding(table, eq_js, arg_text):
+        """The variable named by the equation's array argument is declared with the unmodified array parameter as its value."""
+        ent = table_lookup(table, lambda k: key_text(k, eq_js) == arg_text)
         val = _entry_value(ent, "value") if ent is not None else None
         return val is not None and _unmodified_param(ctx, g, val, p_inp)
 
@@ -339,7 +527,8 @@ def r3_time_grid(ctx, rid):
             lhs_names.add(ast.dump(lhs_r))
             out_ent = table_lookup(table, lambda k: not isinstance(k, (ast.Constant, ast.JoinedStr)) and same_value(ctx, g, resolve_local(ctx, g, k), lhs_r))
             lhs_ok = out_ent is not None and isinstance(_entry_value(out_ent, "vtype"), ast.Constant) and _entry_value(out_ent, "vtype").value == "output"
-            arr_ok = check_array_binding(table, bname, st)
+            arr_pos = 2 if bname == "adaptive" else 0
+            arr_ok = len(args) > arr_pos and check_array_binding(table, js, args[arr_pos])
             facts = {"equation": tpl, "lhs_is_output_variable": lhs_ok, "array_bound_to_parameter": arr_ok}
             label = f"{bname}: equation {tpl}"
             if bname == "adaptive":
@@ -347,19 +536,18 @@ def r3_time_grid(ctx, rid):
                     ctx.violation(rid, g, st, f"the adaptive-step input equation `{tpl}` does not interpolate (expected interp / interp_rows): "
                                               f"fractional times would not be interpolated linearly", facts, label=label)
                     continue
-                grid_ent = table_lookup(table, lambda k: isinstance(k, ast.Constant) and len(args) == 3 and k.value == args[1])
+                grid_ent = table_lookup(table, lambda k: len(args) == 3 and key_text(k, js) == args[1])
                 gval = _entry_value(grid_ent, "value") if grid_ent is not None else None
                 grid_ok = isinstance(gval, ast.Name) and gval.id == grid_name and \
                     [d for d in ctx.rd(g).defs_reaching(gval)] == [lin_st]
-                form_ok = len(args) == 3 and args[0] == "t" and args[2] == f"⟨{p_var}⟩_input"
+                form_ok = len(args) == 3 and args[0] == "t"
                 # interp_rows exactly on the 2-D branch
                 nd = [a_ for a_ in ancestors(st) if isinstance(a_, ast.If) and contains(top, a_) and a_ is not top]
                 two_d = None
                 for a_ in nd:
-                    if ast.unparse(a_.test) == f"{p_inp}.ndim > 1":
-                        two_d = any(contains(x, st) for x in a_.body)
-                    elif ast.unparse(a_.test) in (f"{p_inp}.ndim == 1", f"{p_inp}.ndim < 2"):
-                        two_d = not any(contains(x, st) for x in a_.body)
+                    multi = _ndim_test(a_.test, p_inp)
+                    if multi is not None:
+                        two_d = multi == any(contains(x, st) for x in a_.body)
                 if two_d is None:
                     raise AnalysisError(f"{rid}: cannot tell whether `{tpl}` is emitted for 1-D or 2-D input (unrecognised branch form)")
                 fn_ok = (fn == "interp_rows") == two_d
@@ -369,7 +557,7 @@ def r3_time_grid(ctx, rid):
                 else:
                     why = []
                     if not form_ok:
-                        why.append(f"arguments are ({', '.join(args)}), expected (t, <grid>, {p_var}_input)")
+                        why.append(f"arguments are ({', '.join(args)}), expected (t, <grid>, <array variable>)")
                     if not grid_ok:
                         why.append(f"the grid variable `{args[1] if len(args) > 1 else '?'}` is not bound to the linspace grid")
                     if not fn_ok:
@@ -377,15 +565,15 @@ def r3_time_grid(ctx, rid):
                     if not lhs_ok:
                         why.append("the assigned name is not the declared output variable")
                     if not arr_ok:
-                        why.append(f"`{p_var}_input` is not bound to the array that was passed in")
+                        why.append(f"`{args[2] if len(args) > 2 else '?'}` is not declared with the array that was passed in as its value")
                     ctx.violation(rid, g, st, "adaptive-step input equation is wrong: " + "; ".join(why), facts, label=label)
             else:
-                form_ok = fn == "index" and len(args) == 2 and args[0] == f"⟨{p_var}⟩_input" and args[1] == "t"
+                form_ok = fn == "index" and len(args) == 2 and args[1] == "t"
                 facts["argument_form"] = form_ok
                 if form_ok and lhs_ok and arr_ok:
                     ctx.ok(rid, g, st, "fixed-step input reads sample number t (the step counter) of the array", facts, label=label)
                 else:
-                    ctx.violation(rid, g, st, f"fixed-step input equation `{tpl}` is not `<output> = index({p_var}_input, t)` on the array that "
+                    ctx.violation(rid, g, st, f"fixed-step input equation `{tpl}` is not `<output> = index(<array variable>, t)` on the array that "
                                               f"was passed in: step k would not use sample k", facts, label=label)
     # ---- returned names are the names of what was built
     rets = [n for n in walk_shallow(g.node) if isinstance(n, ast.Return)]
@@ -454,76 +642,189 @@ def r3_time_grid(ctx, rid):
         else:
             ctx.violation(rid, f, cc[0], f"_add_input does not forward the {what}: {msg}", {"call": norm(cc[0])}, label=f"_add_input forwards {what}")
 
-    # ---- the callers
+    # ---- the callers (the calls may live in a private helper that the public method delegates to)
     cls = ctx.repo.get_class(REL, CLS)
+    entry_points = {cls.methods.get(n) for n in CALLERS}
+    results: Dict[tuple, list] = {}
+
+    def record(host, label, node, good, ok_msg, bad_msg, facts=None):
+        results.setdefault((host, label), []).append((node, good, ok_msg, bad_msg, facts))
+
     for name in CALLERS:
         h = cls.methods.get(name)
         ctx.require(h is not None, f"{rid}: anchor vanished: {CLS}.{name}")
-        calls = _calls(h, "_add_input")
-        ctx.require(len(calls) == 1, f"{rid}: expected one _add_input call in {name}, found {len(calls)}")
+        sites = hosts_of(ctx, h, lambda fn: _calls(fn, "_add_input"), skip=(entry_points - {h}) | {f})
+        ctx.require(len(sites) == 1, f"{rid}: expected one function with an _add_input call in or below {name}, found "
+                                     f"{sorted(x[0].qualname for x in sites)}")
+        host, chain = sites[0]
+        calls = _calls(host, "_add_input")
+        ctx.require(len(calls) == 1, f"{rid}: expected one _add_input call in {host.qualname}, found {len(calls)}")
         call = calls[0]
         b = _bind_args(call, fp[1:])
         ctx.require(all(p in b for p in fp[1:5]), f"{rid}: `{norm(call)}` does not pass target, array, flag and time span")
-        applies = [c for c in _calls(h, "apply") if any(k.arg == "adaptive_steps" for k in c.keywords)]
-        ctx.require(len(applies) == 1, f"{rid}: expected one apply(adaptive_steps=...) call in {name}")
-        ap = applies[0]
+
+        def find(callee, kwarg):
+            """The one call `<x>.callee(kwarg=...)` in the host or, failing that, in the public method: (function, call)."""
+            for fn in ([host] if host is h else [host, h]):
+                cs = [c for c in _calls(fn, callee) if any(k.arg == kwarg for k in c.keywords)]
+                if cs:
+                    ctx.require(len(cs) == 1, f"{rid}: expected one {callee}({kwarg}=...) call in {fn.qualname}, found {len(cs)}")
+                    return fn, cs[0]
+            return None, None
+
+        def lift(e):
+            """An expression of the host that is an unmodified parameter, expressed in the public method (through the call chain)."""
+            fn = host
+            for caller, cnode, callee in reversed(chain):
+                if not _unmodified_param(ctx, fn, e):
+                    return None
+                ps = list(callee.params)
+                if callee.cls is not None and not callee.is_static and ps:
+                    ps = ps[1:]
+                bound_ = _bind_args(cnode, ps)
+                if e.id not in bound_:
+                    return None
+                e, fn = bound_[e.id], caller
+            return e
+
+        def same(a, where, other):
+            """`a` (in the host) and `other` (in function `where`) denote the same value."""
+            if where is host:
+                return same_value(ctx, host, a, other)
+            la = lift(a)
+            if la is None:
+                raise AnalysisError(f"{rid}: cannot relate `{norm(a)}` in {host.qualname} to `{norm(other)}` in {where.qualname} "
+                                    f"(unrecognised form)")
+            return same_value(ctx, where, la, other)
+
+        def entry_param(e):
+            """`e` (in the host) is, unchanged, a parameter of the public method."""
+            le = lift(e)
+            return le is not None and _unmodified_param(ctx, h, le)
+
+        ap_fn, ap = find("apply", "adaptive_steps")
+        ctx.require(ap is not None, f"{rid}: expected one apply(adaptive_steps=...) call in {name}")
         akw = {k.arg: k.value for k in ap.keywords}
         # T
-        irun = [c for c in _calls(h, "run") if any(k.arg == "simulation_time" for k in c.keywords)]
+        run_fn, irun = find("run", "simulation_time")
         T = b[f_T]
-        if irun:
-            want = {k.arg: k.value for k in irun[0].keywords}["simulation_time"]
-            good = same_value(ctx, h, T, want) and _unmodified_param(ctx, h, T)
+        Tr = resolve_local(ctx, host, T)
+        if irun is not None:
+            want = {k.arg: k.value for k in irun.keywords}["simulation_time"]
+            good = same(Tr, run_fn, want) and entry_param(Tr)
             exp = f"`{norm(want)}`, the time span handed to the solver"
         else:
             good = False
             exp = f"`<array>.shape[0] * {norm(akw.get('step_size')) if 'step_size' in akw else 'step_size'}`"
-            if isinstance(T, ast.BinOp) and isinstance(T.op, ast.Mult) and "step_size" in akw:
-                for x, y in ((T.left, T.right), (T.right, T.left)):
-                    if isinstance(x, ast.Subscript) and isinstance(x.value, ast.Attribute) and x.value.attr == "shape" \
-                            and isinstance(x.slice, ast.Constant) and x.slice.value == 0 and same_value(ctx, h, x.value.value, b[f_inp]) \
-                            and same_value(ctx, h, y, akw["step_size"]) and _unmodified_param(ctx, h, y):
+            if isinstance(Tr, ast.BinOp) and isinstance(Tr.op, ast.Mult) and "step_size" in akw:
+                for x, y in ((Tr.left, Tr.right), (Tr.right, Tr.left)):
+                    x, y = resolve_local(ctx, host, x), resolve_local(ctx, host, y)
+                    n_rows = (isinstance(x, ast.Subscript) and isinstance(x.value, ast.Attribute) and x.value.attr == "shape"
+                              and isinstance(x.slice, ast.Constant) and x.slice.value == 0 and same_value(ctx, host, x.value.value, b[f_inp])) \
+                        or (isinstance(x, ast.Call) and call_name(x) == "len" and len(x.args) == 1 and same_value(ctx, host, x.args[0], b[f_inp]))
+                    if n_rows and isinstance(y, ast.Name) and same(y, ap_fn, akw["step_size"]) and entry_param(y):
                         good = True
-        if good:
-            ctx.ok(rid, h, call, f"the time span of the input grid is {exp}", {"T": norm(T)}, label="caller: time span")
-        else:
-            ctx.violation(rid, h, call, f"{name} passes `{norm(T)}` as the time span of the input, expected {exp}: the samples would be "
-                                        f"placed on another interval than the one that is integrated", {"T": norm(T)}, label="caller: time span")
+        record(host, "caller: time span", call, good, f"the time span of the input grid is {exp}",
+               f"{name} passes `{norm(Tr)}` as the time span of the input, expected {exp}: the samples would be placed on another interval "
+               f"than the one that is integrated", {"T": norm(Tr)})
         # flag
-        if same_value(ctx, h, b[f_flag], akw["adaptive_steps"]):
-            ctx.ok(rid, h, call, "the flag that selects interpolation is the flag that tells the compiler that t is continuous",
-                   {"flag": norm(b[f_flag])}, label="caller: adaptive flag")
-        else:
-            ctx.violation(rid, h, call, f"_add_input receives `{norm(b[f_flag])}` but apply() receives adaptive_steps=`{norm(akw['adaptive_steps'])}`: "
-                                        f"the input node would index with a continuous time or interpolate on a step counter",
-                          label="caller: adaptive flag")
+        record(host, "caller: adaptive flag", call, same(b[f_flag], ap_fn, akw["adaptive_steps"]),
+               "the flag that selects interpolation is the flag that tells the compiler that t is continuous",
+               f"_add_input receives `{norm(b[f_flag])}` but apply() receives adaptive_steps=`{norm(akw['adaptive_steps'])}`: "
+               f"the input node would index with a continuous time or interpolate on a step counter", {"flag": norm(b[f_flag])})
         # target / array from one items() pair
-        tb = binding_loop(ctx, h, b[fp[1]]) if isinstance(b[fp[1]], ast.Name) else None
-        ib = binding_loop(ctx, h, b[f_inp]) if isinstance(b[f_inp], ast.Name) else None
+        tb = binding_loop(ctx, host, b[fp[1]]) if isinstance(b[fp[1]], ast.Name) else None
+        ib = binding_loop(ctx, host, b[f_inp]) if isinstance(b[f_inp], ast.Name) else None
         pair = tb is not None and ib is not None and tb[2] is ib[2] and isinstance(tb[1], ast.Call) and call_name(tb[1]) == "items" \
             and position_in_target(tb[0], b[fp[1]].id) == 0 and position_in_target(ib[0], b[f_inp].id) == 1
-        if pair:
-            ctx.ok(rid, h, call, "target path and array come from the same inputs.items() pair", label="caller: path/array pairing")
-        else:
-            ctx.violation(rid, h, call, "the target path and the array handed to _add_input are not key and value of one inputs.items() pair: "
-                                        "an array would drive another variable than the one it was given for", label="caller: path/array pairing")
+        record(host, "caller: path/array pairing", call, pair, "target path and array come from the same inputs.items() pair",
+               "the target path and the array handed to _add_input are not key and value of one inputs.items() pair: "
+               "an array would drive another variable than the one it was given for")
         # the template that is compiled is the one _add_input returned
-        call_st = stmt_of(ctx.cfg(h), call)
+        call_st = stmt_of(ctx.cfg(host), call)
         recv = ap.func.value if isinstance(ap.func, ast.Attribute) else None
-        chain = isinstance(call_st, ast.Assign) and call_st.value is call and isinstance(recv, ast.Name) \
-            and any(d is call_st for d in ctx.rd(h).defs_reaching(recv)) \
-            and isinstance(call.func, ast.Attribute) and isinstance(call.func.value, ast.Name) and call.func.value.id == recv.id
-        if chain:
-            ctx.ok(rid, h, call, "the template returned by _add_input (which has the input node and edges) is the one that is compiled",
-                   label="caller: result is compiled")
+        rebinds = isinstance(call_st, ast.Assign) and call_st.value is call and len(call_st.targets) == 1 \
+            and isinstance(call_st.targets[0], ast.Name) and isinstance(call.func, ast.Attribute) and isinstance(call.func.value, ast.Name) \
+            and call.func.value.id == call_st.targets[0].id
+        if ap_fn is host:
+            chain_ok = rebinds and isinstance(recv, ast.Name) and recv.id == call_st.targets[0].id \
+                and any(d is call_st for d in ctx.rd(host).defs_reaching(recv))
         else:
-            ctx.violation(rid, h, call, "the template returned by _add_input is not the one apply() is called on: _add_input returns a new "
-                                        "template, so the input would be dropped silently", label="caller: result is compiled")
+            # apply() is called by the public method on what the helper returned
+            ctx.require(len(chain) == 1, f"{rid}: _add_input and apply() are {len(chain)} call levels apart (unrecognised form)")
+            rets_h = [n for n in walk_shallow(host.node) if isinstance(n, ast.Return) and n.value is not None]
+            returned = rebinds and bool(rets_h) and all(isinstance(r_.value, ast.Name) and r_.value.id == call_st.targets[0].id
+                                                        and any(d is call_st for d in ctx.rd(host).defs_reaching(r_.value)) for r_ in rets_h)
+            helper_st = stmt_of(ctx.cfg(h), chain[0][1])
+            if isinstance(helper_st, ast.Assign) and helper_st.value is chain[0][1] and len(helper_st.targets) == 1 \
+                    and isinstance(helper_st.targets[0], ast.Name):
+                chain_ok = returned and isinstance(recv, ast.Name) and any(d is helper_st for d in ctx.rd(h).defs_reaching(recv))
+            elif isinstance(helper_st, ast.Expr):
+                chain_ok = False
+            else:
+                raise AnalysisError(f"{rid}: cannot follow the template from `{norm(helper_st)}` to `{norm(ap)}` (unrecognised form)")
+        record(host, "caller: result is compiled", call, chain_ok,
+               "the template returned by _add_input (which has the input node and edges) is the one that is compiled",
+               "the template returned by _add_input is not the one apply() is called on: _add_input returns a new "
+               "template, so the input would be dropped silently")
+    for (host, label), items in results.items():
+        bad = [it for it in items if not it[1]]
+        node, _, ok_msg, bad_msg, facts = (bad or items)[0]
+        if bad:
+            ctx.violation(rid, host, node, bad_msg, facts, label=label)
+        else:
+            ctx.ok(rid, host, node, ok_msg, facts, label=label)
 
 
 # --------------------------------------------------------------------------------------------
 # R4 — deriving a template keeps every constructor field
 # --------------------------------------------------------------------------------------------
+
+def _value_origins(ctx, f, name: ast.Name):
+    """For every definition that reaches this use of a local: (parameter name, 'param') when it is a parameter of f,
+    (defining statement, (parameters read, self attributes read)) when it is a plain assignment - followed transitively through
+    the locals the right-hand side reads -, (defining statement, 'opaque') for any other binding."""
+    rd = ctx.rd(f)
+    selfn = f.self_name
+
+    class Opaque(Exception):
+        pass
+
+    def collect(e, seen, params, attrs):
+        for n in ast.walk(e):
+            if isinstance(n, ast.Attribute) and isinstance(n.value, ast.Name) and n.value.id == selfn:
+                attrs.add(n.attr)
+            elif isinstance(n, ast.Name) and isinstance(n.ctx, ast.Load) and n.id != selfn and comp_generator_of(n) is None:
+                for d in rd.defs_reaching(n):
+                    if isinstance(d, ast.arguments):
+                        params.add(n.id)
+                        continue
+                    if (id(d), n.id) in seen:
+                        continue
+                    seen.add((id(d), n.id))
+                    val = assigned_value(d, n.id)
+                    if val is None:
+                        raise Opaque()
+                    collect(val, seen, params, attrs)
+
+    out = []
+    for d in rd.defs_reaching(name):
+        if isinstance(d, ast.arguments):
+            out.append((name.id, "param"))
+            continue
+        val = assigned_value(d, name.id)
+        if val is None:
+            out.append((d, "opaque"))
+            continue
+        params, attrs = set(), set()
+        try:
+            collect(val, {(id(d), name.id)}, params, attrs)
+        except Opaque:
+            out.append((d, "opaque"))
+            continue
+        out.append((d, (params, attrs)))
+    return out
+
 
 def r4_update_template_forwards(ctx, rid):
     cls = ctx.repo.get_class(REL, CLS)
@@ -563,7 +864,12 @@ def r4_update_template_forwards(ctx, rid):
             # the constructor call it is either the update_template parameter `p` itself (the update the caller asked for) or
             # computed from this template's own `p` (and possibly that parameter), never from another constructor field
             good = True
-            for d, origin in _value_origins(ctx, upd, v):
+            origins = _value_origins(ctx, upd, v)
+            if origins and all(o == "param" for _, o in origins):
+                good = False
+                why = (f"`{p}` receives only what the caller of update_template passed (`{norm(v)}` is never completed from this "
+                       f"template's own {p})")
+            for d, origin in origins:
                 if origin == "param":
                     if d != p:
                         good = False
@@ -572,7 +878,7 @@ def r4_update_template_forwards(ctx, rid):
                 if origin == "opaque":
                     raise AnalysisError(f"{rid}: `{p}` of the derived template is bound by `{norm(d)}` (unrecognised form)")
                 reads_params, attrs = origin
-                if not attrs or (attrs & set(cparams)) - {p} or (reads_params & set(upd.params)) - {p}:
+                if not attrs or (attrs & set(cparams)) - {p} or (reads_params & set(cparams)) - {p}:
                     good = False
                     why = f"`{p}` is bound by `{norm(d)}`, which does not derive it from this template's own {p}"
         else:
@@ -825,8 +1131,9 @@ def r6_interp_rows(ctx, rid):
 
 RULES = [
     ("C08-R1", r1_interp, 3),
-    ("C08-R2", r2_column_to_node, 6),
-    ("C08-R3", r3_time_grid, 21),
+    ("C08-R2", r2_column_to_node, 4),      # one merged record: target, source, source_idx, guard (6 with two records, as today)
+    ("C08-R3", r3_time_grid, 13),          # 9 + 4 per function that hosts an _add_input call (three today: 21); all three public
+                                           # callers must be covered, see the require in the rule
     ("C08-R4", r4_update_template_forwards, 9),
     ("C08-R5", r5_empty_selection_reported, 1),
     ("C08-R6", r6_interp_rows, 3),
